@@ -1544,3 +1544,31 @@ package gedcom
 //@   opaque FamilyNode.Wife, WifeNode.Individual, IndividualNode.*, DeleteNodesWithTag, NewNode, simpleDocumentNode.*, SimpleNode.*, FamilyNode.SetWifePointer, IsNil
 //@   oncall DeleteNodesWithTag do removed = true
 //@   ensures view-cleared: implies(removed, node.cachedWife && node.wife == nil)
+
+// C05: the earliest / latest of several dates. Minimum returns an element whose
+// start (on the Years scale, C05) is not after any other element's start, nil
+// exactly for an empty list; Maximum the same with the ends and "not before".
+// startYearsOf / endYearsOf name date.StartDate().Years() / EndDate().Years()
+// as deterministic functions of the node (the oncall assumptions below).
+//@ ghost func startYearsOf(d int) real
+//@ ghost func endYearsOf(d int) real
+//@ func DateNodes.Minimum
+//@   props C05
+//@   requires no-nil: forall(j, 0, len(dates), dates[j] != nil)
+//@   opaque DateNode.StartDate
+//@   oncall Date.Years#1 assume result == startYearsOf(date)
+//@   oncall Date.Years#2 assume result == startYearsOf(min)
+//@   loop 1 invariant least-so-far: (min == nil) == (rangeindex + 1 == 0) && rangeindex < len(dates) && implies(min != nil, forall(j, 0, rangeindex + 1, startYearsOf(min) <= startYearsOf(dates[j])) && exists(j, 0, rangeindex + 1, dates[j] == min))
+//@   ensures empty: (result == nil) == (len(dates) == 0)
+//@   ensures least: implies(result != nil, forall(j, 0, len(dates), startYearsOf(result) <= startYearsOf(dates[j])))
+//@   ensures member: implies(result != nil, exists(j, 0, len(dates), dates[j] == result))
+//@ func DateNodes.Maximum
+//@   props C05
+//@   requires no-nil: forall(j, 0, len(dates), dates[j] != nil)
+//@   opaque DateNode.EndDate
+//@   oncall Date.Years#1 assume result == endYearsOf(date)
+//@   oncall Date.Years#2 assume result == endYearsOf(min)
+//@   loop 1 invariant greatest-so-far: (min == nil) == (rangeindex + 1 == 0) && rangeindex < len(dates) && implies(min != nil, forall(j, 0, rangeindex + 1, endYearsOf(min) >= endYearsOf(dates[j])) && exists(j, 0, rangeindex + 1, dates[j] == min))
+//@   ensures empty: (result == nil) == (len(dates) == 0)
+//@   ensures greatest: implies(result != nil, forall(j, 0, len(dates), endYearsOf(result) >= endYearsOf(dates[j])))
+//@   ensures member: implies(result != nil, exists(j, 0, len(dates), dates[j] == result))
